@@ -38,6 +38,10 @@ pub(crate) struct Parser {
     input_order: Vec<Name>,
     /// Used to avoid parsing the same schema twice
     parsed_schemas: Names,
+    /// Names of the schemas that are defined nested inside one of the input schemas.
+    ///
+    /// A reference to one of these can be used before the input defining it is parsed.
+    nested_names: HashSet<Name>,
 }
 
 impl Parser {
@@ -46,11 +50,73 @@ impl Parser {
         input_order: Vec<Name>,
         parsed_schemas: Names,
     ) -> Self {
+        let mut nested_names = HashSet::new();
+        for value in input_schemas.values() {
+            Self::collect_nested_names(value, None, true, &mut nested_names);
+        }
         Self {
             input_schemas,
             resolving_schemas: HashMap::default(),
             input_order,
             parsed_schemas,
+            nested_names,
+        }
+    }
+
+    /// Collect the names of the named schemas defined inside `value`, excluding `value` itself
+    /// when it is an input schema (`top_level`).
+    ///
+    /// Follows the same namespace rules as parsing: the fields of a record inherit its namespace.
+    fn collect_nested_names(
+        value: &Value,
+        enclosing_namespace: NamespaceRef,
+        top_level: bool,
+        names: &mut HashSet<Name>,
+    ) {
+        match value {
+            Value::Array(variants) => {
+                for variant in variants {
+                    Self::collect_nested_names(variant, enclosing_namespace, false, names);
+                }
+            }
+            Value::Object(complex) => match complex.get("type") {
+                Some(Value::String(t)) if matches!(t.as_str(), "record" | "enum" | "fixed") => {
+                    let Ok(name) = Name::parse(complex, enclosing_namespace) else {
+                        // reported when the schema is actually parsed
+                        return;
+                    };
+                    if let Some(Value::Array(fields)) = complex.get("fields") {
+                        for field in fields {
+                            if let Some(field_type) = field.get("type") {
+                                Self::collect_nested_names(
+                                    field_type,
+                                    name.namespace(),
+                                    false,
+                                    names,
+                                );
+                            }
+                        }
+                    }
+                    if !top_level {
+                        names.insert(name);
+                    }
+                }
+                Some(Value::String(t)) if t == "array" => {
+                    if let Some(items) = complex.get("items") {
+                        Self::collect_nested_names(items, enclosing_namespace, false, names);
+                    }
+                }
+                Some(Value::String(t)) if t == "map" => {
+                    if let Some(values) = complex.get("values") {
+                        Self::collect_nested_names(values, enclosing_namespace, false, names);
+                    }
+                }
+                Some(inner @ (Value::Object(_) | Value::Array(_))) => {
+                    Self::collect_nested_names(inner, enclosing_namespace, false, names);
+                }
+                _ => {}
+            },
+            _ => {}
         }
     }
 
@@ -181,6 +247,16 @@ impl Parser {
                 );
             }
             _ => (),
+        }
+
+        if !self.input_schemas.contains_key(&fully_qualified_name)
+            && self.nested_names.contains(&fully_qualified_name)
+        {
+            // Defined inside another input schema that has not been parsed (completely) yet. The
+            // result is the same reference as when that input schema happens to be parsed first.
+            return Ok(Schema::Ref {
+                name: fully_qualified_name,
+            });
         }
 
         let value = self
